@@ -231,10 +231,13 @@ def build_harness(pid=None):
     src = os.path.join(ROOT, "harness")
     os.makedirs(BIN, exist_ok=True)
     rtag = "" if REPO == "/repo" else "-" + hashlib.sha1(REPO.encode()).hexdigest()[:8]
-    if pid is None:   # monolithic build (setup): everything, all tags
-        d = harness_dir()
-        gs = os.path.join(d, "go.sum")
-        shutil.copy(os.path.join(REPO, "go.sum"), gs)
+    if pid is None:   # monolithic build (setup): everything, all tags; in a copy so that -mod=mod never edits the tracked go.mod
+        d = os.path.join(WORK, "hb", "all" + rtag)
+        os.makedirs(d, exist_ok=True)
+        sh(["rsync", "-a", "--delete", "--exclude", "go.sum", src + "/", d + "/"], check=True)
+        gm = open(os.path.join(d, "go.mod")).read().replace("=> /repo", "=> " + REPO)
+        open(os.path.join(d, "go.mod"), "w").write(gm)
+        shutil.copy(os.path.join(REPO, "go.sum"), os.path.join(d, "go.sum"))
         exe = os.path.join(BIN, "vh-all" + rtag)
         rc, o, dt = sh(["go", "build", "-tags", "verif,verif_all", "-o", exe, "."], cwd=d, env=GOENV, timeout=1800)
         return rc == 0, o, dt, exe
@@ -289,6 +292,11 @@ def build_harness(pid=None):
             if f and f not in files:
                 files.add(f)
                 grew = True
+        for m in re.finditer(r"has no field or method (Verif(C\d+)\w*)", out):
+            t = "verif_" + m.group(2).lower()
+            if t not in tags:
+                tags.add(t)
+                grew = True
         if not grew:
             break
     return False, out, time.time() - t0, exe
@@ -304,7 +312,10 @@ def run_vh(exe, pid, args, outfile, timeout=1800):
             for line in f:
                 line = line.strip()
                 if line:
-                    cases.append(json.loads(line))
+                    try:
+                        cases.append(json.loads(line))
+                    except ValueError:
+                        break      # the driver was stopped in the middle of a line: keep what is complete
     return rc, o, dt, cases
 
 
@@ -410,7 +421,7 @@ def shrink(pid, prop, exe, case, code, wdir, budget_s=120):
             if code in res.get(i, []):
                 nxt = c
                 break
-        if nxt is None:
+        if nxt is None or nxt.get("input") == cur.get("input"):
             break
         cur = nxt
     return cur
@@ -538,7 +549,7 @@ def check_property(pid, tier, seed, n_override=None, replay=None):
     # search when only the proof / the tie is broken
     searched = 0
     if (broken or mismatches) and not viol and hok and mon_ok and not replay and not eval_err:
-        budget = prop.get("search_s", 150)
+        budget = min(prop.get("search_s", 150), 420)
         t0 = time.time()
         k = 0
         while time.time() - t0 < budget and not viol:
